@@ -115,6 +115,13 @@ func verifH13(checkClass bool, id string) {
 	if !victimReadsLast {
 		w.checkReads(id + ".before")
 	}
+	// optionally another transaction begins after the victim has ended and before the late call
+	// (it must be a transaction of its own: nothing done through the ended handle touches it)
+	later := 0
+	if nd.Choice("another-transaction-begins-meanwhile", 2) == 1 {
+		later = w.begin(fs_db.IsoLevelReadCommitted)
+		nd.Assert(w.doSet(later, "a", w.freshVal(), 0) == nil, id+".later-tx-write")
+	}
 	kind := nd.Choice("late-op", 9)
 	err := lateOp(h, kind, "a")
 	if checkClass {
@@ -130,6 +137,11 @@ func verifH13(checkClass bool, id string) {
 	if kind != 8 {
 		nd.Assert(lateOp(h, 8, "a") == nil, id+".rollback-after-late")
 		w.checkReads(id + ".after-late-" + lateNames[kind] + "-and-rollback")
+	}
+	if later != 0 {
+		// the later transaction is unaffected: it still reads its own write and commits
+		w.commit(later, id+".later-tx")
+		w.checkReads(id + ".after-later-commit")
 	}
 	verifenv.RunJobs()
 	w.reopen("H13")
